@@ -5,8 +5,8 @@
 package c18
 
 import (
-	"bytes"
 	"bufio"
+	"bytes"
 	"encoding/json"
 	"fmt"
 	"go/constant"
@@ -14,6 +14,7 @@ import (
 	"os"
 	"os/exec"
 	"reflect"
+	"regexp"
 	"strings"
 	"testing"
 
@@ -344,7 +345,7 @@ func allMasks() []int {
 
 func TestOptionInvariance(t *testing.T) {
 	var kept []gobatch.Program
-	n := vrec.Scale(60, 500)
+	n := vrec.Scale(60, 300)
 	vrec.Check(t, n, func(rt *rapid.T) {
 		gi := rapid.IntRange(0, len(gens)-1).Draw(rt, "generator")
 		p := gens[gi].gen(rt, "P_")
@@ -373,10 +374,21 @@ func TestOptionInvariance(t *testing.T) {
 		if len(kept)%16 == 1 {
 			vrec.Sample(map[string]interface{}{"program": p.Source("p"), "option_sets": len(masks)})
 		}
+		if os.Getenv("C18_GENONLY") != "" {
+			return // debugging aid: only regenerate the programs of a run for the generics worker
+		}
 		if err := checkProgram(p, masks); err != nil {
 			vrec.Failf(rt, "options", p.Replay(), "go", "%v", err)
 		}
 	})
+	if f := os.Getenv("C18_DUMP"); f != "" {
+		var b bytes.Buffer
+		enc := json.NewEncoder(&b)
+		for _, p := range kept {
+			enc.Encode(p)
+		}
+		os.WriteFile(f, b.Bytes(), 0o644)
+	}
 	if vrec.ReplayOnly() || t.Failed() {
 		return
 	}
@@ -384,10 +396,23 @@ func TestOptionInvariance(t *testing.T) {
 	checkGenerics(t, kept)
 }
 
-func checkGenerics(t *testing.T, progs []gobatch.Program) {
-	if len(progs) == 0 {
-		return
+// F-C18-1: with the CTI generics extension on, the built-in contract methods (Len, Less,
+// Index, Add ...) are ordinary methods of every named basic or container type, so a
+// generic-free program that declares a method with one of those names is affected.
+var ctiMethodName = regexp.MustCompile(`(?m)^func \([^)]*\) (Add|AddrIndex|And|AndNot|Append|AppendString|Cap|Close|Cmp|Copy|CopyString|DelIndex|Equal|Imag|Index|Len|Less|Lsh|Mul|Neg|Not|Or|Quo|Real|Recv|Rem|Rsh|Send|SetIndex|Slice|Sub|TryIndex|TryRecv|TrySend|Xor)\(`)
+
+func declaresContractMethodName(p gobatch.Program) bool {
+	for _, d := range p.Decls {
+		if ctiMethodName.MatchString(d) {
+			return true
+		}
 	}
+	return false
+}
+
+// genericsOutcomes evaluates the programs, in order, in one worker process that has the
+// CTI generics extension on (etoken.GENERICS is process-global).
+func genericsOutcomes(progs []gobatch.Program) ([]outcome, error) {
 	cmd := exec.Command(os.Args[0])
 	cmd.Env = append(os.Environ(), "C18_WORKER=1")
 	var in bytes.Buffer
@@ -399,35 +424,64 @@ func checkGenerics(t *testing.T, progs []gobatch.Program) {
 	var out, errb bytes.Buffer
 	cmd.Stdout, cmd.Stderr = &out, &errb
 	if err := cmd.Run(); err != nil {
-		t.Fatalf("INCONCLUSIVE: generics worker failed: %v\n%s", err, errb.String())
+		return nil, fmt.Errorf("generics worker failed: %v\n%s", err, errb.String())
 	}
 	sc := bufio.NewScanner(&out)
 	sc.Buffer(make([]byte, 1<<20), 1<<26)
-	i := 0
+	var outs []outcome
 	for sc.Scan() {
 		var o outcome
 		if err := json.Unmarshal(sc.Bytes(), &o); err != nil {
 			continue
 		}
-		if i >= len(progs) {
-			break
+		outs = append(outs, o)
+	}
+	if len(outs) != len(progs) {
+		return nil, fmt.Errorf("generics worker answered %d of %d programs\n%s", len(outs), len(progs), errb.String())
+	}
+	return outs, nil
+}
+
+// genericsDiff compares the outcome with generics on with a generics-off evaluation.
+func genericsDiff(p gobatch.Program, o outcome) string {
+	base0 := runEval(p, base.OptTrapPanic)
+	if o.key() != base0.key() || (o.PanicV != base0.PanicV) {
+		return "generics extension on (first result) differs from generics off (second result)\n" +
+			gobatch.Diff(gobatch.Result{Trace: o.Trace, Panic: o.PanicV, Err: o.Err}, gobatch.Result{Trace: base0.Trace, Panic: base0.PanicV, Err: base0.Err})
+	}
+	return ""
+}
+
+func checkGenerics(t *testing.T, all []gobatch.Program) {
+	var progs []gobatch.Program
+	for _, p := range all {
+		if vrec.Known("F-C18-1") && declaresContractMethodName(p) {
+			vrec.Excluded("F-C18-1")
+			continue
 		}
-		p := progs[i]
-		i++
+		progs = append(progs, p)
+	}
+	if len(progs) == 0 {
+		return
+	}
+	outs, err := genericsOutcomes(progs)
+	if err != nil {
+		t.Fatalf("INCONCLUSIVE: %v", err)
+	}
+	for i, p := range progs {
 		vrec.Eval(1)
 		vrec.Label("options:generics-CTI-on")
-		base0 := runEval(p, base.OptTrapPanic)
-		if o.key() != base0.key() || (o.PanicV != base0.PanicV) {
+		if d := genericsDiff(p, outs[i]); d != "" {
+			// the worker ran the earlier programs too: confirm on the program alone
+			if one, err := genericsOutcomes([]gobatch.Program{p}); err == nil && genericsDiff(p, one[0]) == "" {
+				d = "(only after the " + fmt.Sprint(i) + " programs evaluated before it in the same process) " + d
+			}
 			q := p
 			q.Meta = map[string]string{"generics": "cti"}
-			vrec.Violation("generics", q.Replay(), "go", "generics extension on: result differs from generics off\n%s",
-				gobatch.Diff(gobatch.Result{Trace: o.Trace, Panic: o.PanicV, Err: o.Err}, gobatch.Result{Trace: base0.Trace, Panic: base0.PanicV, Err: base0.Err}))
+			vrec.Violation("generics", q.Replay(), "go", "%s", d)
 			t.Errorf("generics extension changes the result of a generic-free program")
 			return
 		}
-	}
-	if i != len(progs) {
-		t.Fatalf("INCONCLUSIVE: generics worker answered %d of %d programs\n%s", i, len(progs), errb.String())
 	}
 }
 
@@ -453,7 +507,7 @@ func worker() {
 // ---------------------------------------------------------------- KeepUntyped on final constants
 
 func TestKeepUntyped(t *testing.T) {
-	vrec.Check(t, vrec.Scale(300, 5000), func(rt *rapid.T) {
+	vrec.Check(t, vrec.Scale(300, 3000), func(rt *rapid.T) {
 		g := progen.New(rt, "", 10)
 		var src string
 		switch g.Pick(4, "const-kind") {
@@ -536,7 +590,17 @@ func replay(content []byte) error {
 	if gobatch.Vet(p) != nil {
 		return nil
 	}
-	return checkProgram(p, allMasks())
+	if err := checkProgram(p, allMasks()); err != nil {
+		return err
+	}
+	outs, err := genericsOutcomes([]gobatch.Program{p})
+	if err != nil {
+		return vlib.InconclusiveError{Msg: err.Error()}
+	}
+	if d := genericsDiff(p, outs[0]); d != "" {
+		return fmt.Errorf("%s", d)
+	}
+	return nil
 }
 
 func TestReplays(t *testing.T) {
